@@ -49,6 +49,7 @@ proof fn lemma_pairwise(v: Seq<Value>, s: u32, e: u32, j: int, k: int)
 // own fresh `let mut vals: Vec<f32> = vec![0f32; size as usize];`, which shadows it.  An edit that hoists the
 // buffer out of the per-line loop and only `resize`s it works on the incoming content and is judged here.
 //@extract fn bigtools/src/utils/cli/bigwigvaluesoverbed.rs write
+//@rule R16
 //@presub /\A.*?\n([ \t]*let size = [^;\n]*;.*?)\n[ \t]*let vals_strings\b.*\Z/ => fn fill_region(vals: Vec<f32>, interval: Vec<Value>, start: u32, end: u32) -> Vec<f32> {\n    let mut vals = vals;\n\1\n    vals\n} min=1 count=1
 //@sub /for (\w+) in interval \{/ => for i__1 in 0..interval.len() { let \1 = &interval[i__1]; min=0
 //@sub /\bvals\[([^\]]*)\] = ([^;]*);/ => vals.set(\1, \2); min=0
